@@ -226,7 +226,38 @@ def coherence_cases(build):
         if build == 'ark': cases.append((f'B {K(k)} mul iszero', 'false', 'is_zero of a non-identity'))
     return cases
 
+def smul_cases(build):
+    cases = []
+    B = ref_B()
+    ks = scalars() + [R, R + 1, 2 * R - 1]
+    for k in scalars():
+        for base, Pb, desc in ((f'B', B, 'B'), (f'B {K(3)} mul', ref_mul(B, 3), '[3]B'), (f'B {K(R - 3)} mul neg', ref_mul(B, 3), '[3]B (other coset representative)')):
+            want = ref_enc_hex(ref_mul(Pb, k))
+            cases.append((f'{base} {K(k)} mul enc', want, f'[{k}]*{desc} via Mul<Fr>'))
+    limb_ints = [0, 1, 2, R - 1, R, R + 1, 2 ** 64, 2 ** 128, 2 ** 192 + 5, 2 ** 255, 2 ** 256 - 1, 2 ** 256, 2 ** 256 + 1, (1 << 320) - 1, R << 64, 2 ** 383 + 12345, 0xFFFFFFFFFFFFFFFF]
+    for v in limb_ints:
+        nbytes = max(8, ((v.bit_length() + 63) // 64) * 8)
+        hx = v.to_bytes(nbytes, 'little').hex()
+        want = ref_enc_hex(ref_mul(ref_mul(B, 3), v % R))
+        if build == 'min':
+            cases.append((f'B {K(3)} mul ladder_ct:{hx} enc', want, f'constant-time ladder with the {nbytes // 8}-limb integer {v}'))
+            cases.append((f'B {K(3)} mul ladder_vt:{hx} enc', want, f'variable-time ladder with the {nbytes // 8}-limb integer {v}'))
+        else:
+            cases.append((f'B {K(3)} mul mulbig:{hx} enc', want, f'Group::mul_bigint with the {nbytes // 8}-limb integer {v}'))
+            cases.append((f'B {K(3)} mul aff amulbig:{hx} enc', want, f'AffineRepr::mul_bigint with the {nbytes // 8}-limb integer {v}'))
+    if build == 'ark':
+        for ks_ in ([], [3], [3, 5], [3, 0, 5], [0, 7], [2, 0, 0, 9], [R - 1, 1]):
+            prog = ' '.join(f'B {K(i + 2)} mul {K(k)}' for i, k in enumerate(ks_))
+            want = enc_of_mul(sum((i + 2) * k for i, k in enumerate(ks_)))
+            cases.append(((prog + ' ' if prog else '') + 'named:msm enc', want, f'vartime_multiscalar_mul with scalars {ks_}'))
+            if ks_: cases.append((prog + ' named:vbmsm enc', want, f'VariableBaseMSM::msm with scalars {ks_}'))
+    cases.append((f'B {K(R - 1)} mul B add isid', 'true', '[r]B is the identity'))
+    cases.append(('B isid', 'false', 'B is not the identity'))
+    cases += form_cases(build)
+    return cases
+
 BATTERIES = {
+    'C05': lambda b: smul_cases(b),
     'C08': lambda b: coherence_cases(b),
     'C17': lambda b: const_cases(b) + const_semantic_cases(b),
     'C02': lambda b: decode_cases(b) + funnel_cases(b),
